@@ -4,7 +4,27 @@ C14: TcpFraming is model-checked at small scale (two-valued header bytes); its s
 DAGs (one per configuration), and *every path* of every DAG is one chunking of the byte stream.  Each path is
 scaled to concrete lengths (0,1,2,255,256,cap-1,cap,cap+1,65535,65536+) and replayed as a scripted net.Conn on
 the real readStreamingPacket fed by the real writeStreamingPacket; what the real code did is validated against
-TcpFraming (HB = 256) by TcpFramingTrace and judged by TcpFramingMon - both evaluated by TLC.
+TcpFraming (HB = 256) by TcpFramingTrace and judged by TcpFramingMon - both evaluated by TLC.  The same monitor
+judges tcpPacketConn behind a real TCPMuxDefault (net.Pipe, synctest bubble) and activeTCPConn (loopback sockets).
+
+C15: TcpMux (one action per critical section / blocking point of each goroutine of the mux) is model-checked
+exhaustively within a bound on environment actions; behaviours from TLC's simulation mode (TcpMuxSim prints the
+environment's actions as JSON), TLC's counterexample to NoStaleRemoval and a few directed schedules are replayed
+on the real TCPMuxDefault inside synctest bubbles; the recorded traces are validated against TcpMux with silent
+internal steps (TcpMuxTrace) and judged by TcpMuxMon.
+
+False alarms of this family corrected while it was built (the log DESIGN.md section 10.4 asks for):
+ * C14 WriterDelivers demanded "reported ok => on the wire" also for packets above the write path's limit; activeTCPConn
+   accepts them into its buffer and refuses later by closing - demand restricted to supported lengths.
+ * C14 activeTCPConn case set: an over-MTU WriteTo (which closes the connection) preceded the inbound part - cases split.
+ * C15 model: CloseCompletes asked that no tcpPacketConn reader goroutine exists when Close returns; the reader of a
+   packet conn unlisted by a concurrent RemoveConnByUfrag may still be on its way out (Remove waits for it) - weakened
+   to "only readers of closed packet conns". CloseProgress failed on the MaxPc bound of the model - bound raised.
+ * C15 monitor: after a client closes its end the mux was required to close its end at once; a reader goroutine blocked
+   handing a packet to the application (unclaimed provisional conn, full queue) notices only later - the demand now
+   applies only while handleConn still waits for the first frame.
+ * C15 trace spec: the driver's Close runs on its own goroutine (the model took m.mu at the call), the driver wrote into
+   connections the mux had closed, ClientClose required all frames sent - model/driver aligned.
 """
 import json
 import os
@@ -304,12 +324,15 @@ MTU = 8192
 def framing_features(pred, c):
     """Shape of the offending case: used for known-finding matching and shown with a violation."""
     f = {"predicate": pred, "kind": c["kind"], "res": c["res"]}
+    if c.get("abuf") not in (None, "", "ample"):
+        f["app_buffer"] = c["abuf"]
     wr = c.get("wr", [])
     on_wire = [w["ok"] and w["wrote"] > 0 for w in wr]
     wire_ok = all((w["hdr"] == n and w["blen"] == n and w["same"]) if ow else w["wrote"] == 0 for w, n, ow in zip(wr, c["pk"], on_wire))
     f["wire_ok"] = wire_ok
     caps = c.get("caps") or [c.get("cap")] * len(c["pk"])
-    acc = [i for i, ow in enumerate(on_wire) if ow]
+    adrop = c.get("adrop") or [False] * len(wr)
+    acc = [i for i, ow in enumerate(on_wire) if ow and not adrop[i]]
     bad = None
     if pred == "NoTruncHeader":
         for i, (w, n) in enumerate(zip(wr, c["pk"])):
@@ -398,37 +421,48 @@ def split_events(evfile, want_over):
 
 
 def framing_conformance(work, stats, evfile, tag, timeout=600):
-    """TcpFramingTrace over the recorded events (evidence, not verdict). Cases with an over-long packet are
-    validated against the near-miss writer (Truncating = TRUE): that is how the unchanged tree behaves (F-C14)."""
-    for over in (False, True):
-        lines, ncases = split_events(evfile, over)
-        if not ncases:
-            continue
-        path = work.path("ev-%s-%s.ndjson" % (tag, "over" if over else "fit"))
+    """TcpFramingTrace over the recorded events (evidence, not verdict). Cases with an over-long packet that do not
+    conform to the specified writer are validated against the near-miss writer (Truncating = TRUE): that is how the
+    unchanged tree behaves (F-C14)."""
+    def validate(lines, ncases, truncating, name):
+        path = work.path("ev-%s-%s.ndjson" % (tag, name))
         open(path, "w").writelines(lines)
-        mod = write_module(work.dir, "TRF_%s_%d" % (tag, over), "TcpFramingTrace",
-                           {"HB": "256", "Configs": "Dummy", "Truncating": "TRUE" if over else "FALSE", "TraceFile": q(path)},
+        mod = write_module(work.dir, "TRF_%s_%s" % (tag, name), "TcpFramingTrace",
+                           {"HB": "256", "Configs": "Dummy", "Truncating": "TRUE" if truncating else "FALSE", "TraceFile": q(path)},
                            ["SPECIFICATION TSpec", "POSTCONDITION Accepted", "CHECK_DEADLOCK FALSE"])
         r = v.tlc(work.dir, mod, workers=1, timeout=timeout)
         if r.error:
             sys.stderr.write(r.out[-2000:])
             raise v.Inconclusive("framing trace validation %s: TLC %s" % (tag, r.error))
-        key = "traces_conforming_to_truncating_writer" if over else "traces_validated_against_impl"
         if r.clean:
-            stats[key] += ncases
-        else:
-            rej = r.prints("TRACE_REJECTED_AT")
-            at = int(rej[0][0]) if rej else r.depth
-            ok = sum(1 for ln in lines[:max(at - 1, 0)] if '"ev":"Reset"' in ln) - 1
-            stats[key] += max(ok, 0)
-            stats["nonconforming_traces"] += 1
-            ev = lines[at - 1].strip() if 0 < at <= len(lines) else ""
-            case = [json.loads(ln) for ln in lines[:at] if '"ev":"Reset"' in ln][-1:]
-            msg = "NONCONFORMANCE spec=TcpFraming%s line=%d event=%s case=%s" % ("(truncating)" if over else "", at, ev, json.dumps(case[0]) if case else "?")
-            stats["nonconformance"].append(msg[:600])
-            sys.stderr.write(msg[:600] + "\n")
-        stats["trace_events"] += len(lines)
+            return ncases, None
+        rej = r.prints("TRACE_REJECTED_AT")
+        at = int(rej[0][0]) if rej else r.depth
+        ok = sum(1 for ln in lines[:max(at - 1, 0)] if '"ev":"Reset"' in ln) - 1
+        ev = lines[at - 1].strip() if 0 < at <= len(lines) else ""
+        case = [json.loads(ln) for ln in lines[:at] if '"ev":"Reset"' in ln][-1:]
+        return max(ok, 0), "line=%d event=%s case=%s" % (at, ev, json.dumps(case[0]) if case else "?")
 
+    for over in (False, True):
+        lines, ncases = split_events(evfile, over)
+        if not ncases:
+            continue
+        stats["trace_events"] += len(lines)
+        ok, why = validate(lines, ncases, False, "over" if over else "fit")
+        if why is None:
+            stats["traces_validated_against_impl"] += ncases
+            continue
+        if over:
+            ok2, why2 = validate(lines, ncases, True, "overtrunc")
+            if why2 is None:
+                stats["traces_conforming_to_truncating_writer"] += ncases
+                continue
+            why = why2
+        stats["traces_validated_against_impl"] += ok if not over else 0
+        stats["nonconforming_traces"] += 1
+        msg = "NONCONFORMANCE spec=TcpFraming%s %s" % (" (also with the truncating writer)" if over else "", why)
+        stats["nonconformance"].append(msg[:600])
+        sys.stderr.write(msg[:600] + "\n")
 
 PCONN_SCALES = {2: [SCALES[2][1], SCALES[2][3]], 3: [SCALES[3][2]]}   # the reader buffer of tcpPacketConn is fixed (8192)
 STUN_FRAME = 2 + 36   # framed Binding request with USERNAME "u1:peer" as built by the driver
@@ -467,6 +501,11 @@ def pconn_cases(rng, paths, n_paths, n_random):
                   "rchunks": [1 << 20] * 4, "rcap": 65535, "tag": "writeto-big wb=0"})
     cases.append({"pk": [], "writes": [STUN_FRAME], "trunc": 0, "wb": 0, "rb": 8, "reply": [65541],
                   "rchunks": [1 << 20] * 4, "rcap": 8192, "tag": "writeto-fc14 wb=0"})
+    # the application reads with a buffer whose length is shorter than the packet but whose capacity is not
+    cases.append({"pk": [10], "writes": [STUN_FRAME + 12], "trunc": 0, "wb": 0, "rb": 8, "reply": [], "rchunks": [], "rcap": 8192,
+                  "alen": 40, "acap": 40, "tag": "app buffer len=cap=40"})
+    cases.append({"pk": [50, 10], "writes": [STUN_FRAME + 52 + 12], "trunc": 0, "wb": 0, "rb": 8, "reply": [], "rchunks": [], "rcap": 8192,
+                  "alen": 40, "acap": 64, "tag": "app buffer len=40 cap=64"})
     for i, c in enumerate(cases):
         c["id"] = 100000 + i
     return cases
@@ -663,7 +702,7 @@ def mux_model_check(work, stats, tier, timeout):
     """TcpMux exhaustively: 2 clients x behaviour classes x interleavings with Get/Remove/Close/Advance."""
     quick = tier == "quick"
     d = mux_consts("MCClients", MUX_CLASSES if quick else MUX_BEHAVIOURS[:3] + ["garbage", "oversize", "silent", "earlyclose"],
-                   MaxExt=4 if quick else 6, MaxRaces=1 if quick else 2, MaxReply=0 if quick else 1, MaxPc=4 if quick else 5)
+                   MaxExt=4 if quick else 5, MaxRaces=1 if quick else 2, MaxReply=0 if quick else 1, MaxPc=4 if quick else 5)
     mod = write_module(work.dir, "MCM", "MC_TcpMux", d,
                        ["SPECIFICATION Spec", "CHECK_DEADLOCK FALSE", "SYMMETRY MCSym"] + ["INVARIANT " + i for i in MUX_INVARIANTS])
     # write_module maps every constant through an operator; the model values of MC_TcpMux are declared in the cfg
@@ -944,3 +983,76 @@ C15_ASSUME = ["TCP connections are net.Pipe pairs behind a fake net.Listener ins
               "time advances in steps of 16 s, so a 30 s timer fires during the second step after it was armed"]
 
 PLANS["C15"] = c15
+
+
+# ================================================================ replay, manifest
+
+def replay(path):
+    """Re-run one recorded case (evidence/replay file written with a VIOLATION line) on the current tree and re-judge it:
+    ./check replay-tcp --replay <path>"""
+    rp = json.load(open(path))
+    prop = rp["property"]
+    verdict = v.Verdict(prop, "quick", 0)
+    stats = new_stats()
+    stats.update({"real_traces": 0, "real_steps": 0, "skipped_actions": 0, "bubble_leaks": 0, "monitor_states": 0})
+    with v.Work("replay-" + FAMILY) as work:
+        work.copy_specs(FAMILY)
+        binary = v.build_harness(work, pkg=FAMILY)
+        if prop == "C14":
+            c = dict(rp["input"])
+            kind = rp["record"]["kind"]
+            if kind in ("script", "garbage"):
+                cout, _ = run_framing_driver(work, binary, [c], "rp", stats)
+            elif kind.startswith("pconn"):
+                cout = run_pconn_driver(work, binary, [c], stats)
+            else:
+                cout = run_active_driver(work, binary, [c], stats)
+            framing_judge(work, verdict, stats, cout, "rp", inputs={c["id"]: c})
+        else:
+            sc = dict(rp["scenario"])
+            cout = run_mux_driver(work, binary, [sc], "rp", stats)
+            mux_judge(work, verdict, stats, cout, "rp", [sc])
+    for kid, (what, cnt) in verdict.known_hits.items():
+        print("KNOWN-FINDING: property=%s %s" % (prop, what))
+    for feat, p in verdict.violations:
+        print("VIOLATION property=%s replay=%s" % (prop, p))
+    return 1 if verdict.violations else 0
+
+
+def _replay_plan(tier, seed):
+    if "--replay" not in sys.argv:
+        sys.stderr.write("usage: ./check replay-tcp --replay <path>\n")
+        return 2
+    return replay(sys.argv[sys.argv.index("--replay") + 1])
+
+
+PLANS["replay-tcp"] = _replay_plan
+
+TCP_NOTE = ("Trusted base: TLC; the Go drivers (scripted net.Conn, fake net.Listener + net.Pipe connections with TCP addresses, the "
+            "description of returned bytes in terms of the packets written); testing/synctest's virtual clock and quiescence detection; "
+            "the tagged export /repo/verif_export_tcp.go. The verdict is a TLA+ predicate of specs/tcp/TcpFramingMon.tla or "
+            "specs/tcp/TcpMuxMon.tla evaluated by TLC on what the real code in /repo's working tree did in this run; conformance of "
+            "the same runs to specs/tcp/TcpFraming.tla / TcpMux.tla (trace validation) is reported as evidence. A violation file is "
+            "re-run with ./check replay-tcp --replay <path>.")
+MANIFEST = {
+    "C14": ("model_checking", "5.C14",
+            "TcpFraming.tla (writer with refusal, reader's two-phase loop, one action per conn.Read) model-checked at small scale for every "
+            "sequence of <= 3 packets over the length classes x buffers x truncations; every PATH of its acyclic state graph (= every "
+            "chunking) is scaled to the real length classes (0,1,2,255,256,cap-1,cap,cap+1,65535,65536+) and replayed as a scripted "
+            "net.Conn on the real readStreamingPacket fed by the real writeStreamingPacket (quick: all chunkings of <= 2 packets and a "
+            "seeded sample for 3; thorough: all), plus seeded random chunkings of long streams, arbitrary byte streams, tcpPacketConn "
+            "behind a real TCPMuxDefault (both directions, with and without write buffer) and activeTCPConn over loopback sockets; "
+            "judged by the monitor predicates NoTruncHeader, WriterDelivers, ErrNotGarbage, RoundTrip, BoundedRead.",
+            TCP_NOTE, "TLA+ spec model-checked with TLC; all paths of the state graph replayed on the real code; recorded runs validated "
+            "against the spec and judged by a TLA+ monitor in TLC"),
+    "C15": ("model_checking", "5.C15",
+            "TcpMux.tla (handleConn, per-connection reader, watcher and alive-timer goroutines, m.mu as a lock, m.wg as a counter, "
+            "Get/Remove/Close, countdown timers) model-checked exhaustively for 2 clients x behaviour classes x interleavings within a "
+            "bound on environment actions and on actions that race with the mux's goroutines; TLC simulation behaviours (3 clients, nine "
+            "client behaviours), TLC's counterexample to NoStaleRemoval and directed schedules are replayed on the real TCPMuxDefault over a "
+            "fake listener and net.Pipe connections inside synctest bubbles (virtual 30 s timers, goroutine-leak oracle); recorded traces "
+            "are validated against TcpMux (silent internal steps) and judged by the monitor predicates RoutedByFirstUfrag, "
+            "BadFirstFrameClosed, ProvisionalExpires, CloseCompletes.",
+            TCP_NOTE, "TLA+ spec model-checked with TLC; TLC-generated behaviours replayed on the real code; recorded traces validated "
+            "against the spec (silent-step composition) and judged by a TLA+ monitor in TLC"),
+}
